@@ -5,7 +5,8 @@ import BornoModel.Lexer
 Each node keeps exactly the fields the Go node has and the interpreter or a diagnostic can
 observe (operator token type, the `Line` fields, lexemes of names).  One ghost item: an object
 literal keeps the *whole* parsed property list (duplicates included) and whether a comma followed
-the last property; `effectiveProps` gives the Go view (`Keys` in first-occurrence order, each with the last initialiser written for it).
+the last property, and a `ফর` statement keeps whether it had a condition (the Go parser
+substitutes the literal `true`, line 0, for a missing one: `forCond`); `effectiveProps` gives the Go view (`Keys` in first-occurrence order, each with the last initialiser written for it).
 -/
 namespace Borno
 
@@ -47,12 +48,15 @@ inductive Stmt
   | block (ss : List Stmt)
   | ifS (c : Expr) (t : Stmt) (e : Option Stmt)
   | whileS (c : Expr) (b : Stmt)
-  | forS (init : Option Stmt) (cond : Expr) (incr : Option Expr) (body : Stmt)
+  | forS (init : Option Stmt) (cond : Option Expr) (incr : Option Expr) (body : Stmt)
   | breakS (line : Nat)
   | continueS (line : Nat)
   | returnS (line : Nat) (v : Option Expr)
   | funS (name : Name) (params : List Name) (body : List Stmt)
   deriving Repr, Inhabited
+
+/-- the condition a `ফর` statement runs with: the parser's stand-in `true` (line 0) when none was written -/
+def forCond (c : Option Expr) : Expr := c.getD (.literal (.bool true) 0)
 
 /-- Go map assignment on an association list that remembers first-insertion order -/
 def upsert {α : Type} (k : Name) (v : α) : List (Name × α) → List (Name × α)
